@@ -138,17 +138,18 @@ let case line =
             | None -> Printf.sprintf "%d=-" (int_of_n m)) w) in
       let h1 = tracks_distinct_b text (List.map fst imps) in
       let h2 = List.for_all (fun exps -> tracks_distinct_b text (List.map fst exps)) pls in
-      (* the two ways in which the export-first pairs of plug.rs and the import-first offers can differ *)
-      let ra = ref false and rb = ref false in
+      (* divergence of the readings: a pair kept by the (repaired) loop that is not the import-first offer, or an
+         offer that is not a kept pair.  Both need two socket imports on one semver track (PlugProofs.pair_iff_offer). *)
+      let ra = ref false in
       List.iter (fun exps ->
-        let ms = plug_matches text sub imps exps in
+        let ms = plug_pairs text sub imps exps in
         List.iter (fun (m, t) -> match offer text sub exps (m, t) with
           | Some e -> if not (List.mem (e, m) ms) then ra := true
           | None -> ()) imps;
         List.iter (fun (e, m) ->
           let t = match alist_get N.eqb imps m with Some t -> t | None -> N0 in
-          if offer text sub exps (m, t) <> Some e then rb := true) ms) pls;
-      let reasons = (if !ra then "A" else "") ^ (if !rb then "B" else "") in
+          if offer text sub exps (m, t) <> Some e then ra := true) ms) pls;
+      let reasons = if !ra then "A" else "" in
       let names l = String.concat "," (List.map (fun (n, k) -> Printf.sprintf "%d:%d" (int_of_n n) (int_of_n k)) l) in
       let tr = List.concat_map (fun (a, _) -> List.filter_map (fun (b, _) ->
           if int_of_n a < int_of_n b && compat (text a) (text b) then Some (Printf.sprintf "%d~%d" (int_of_n a) (int_of_n b)) else None) imps) imps in
